@@ -8,7 +8,8 @@ from harness import par, tlc
 
 SCHEMA_SDL = "schema { query: O }  type O { a: Int  o: O }"
 FRAGS = "fragment F on O { o { a } }\nfragment G on O { a }\nfragment H on O { o { ...F } }\n"
-DIR = {"": "", "skipT": " @skip(if: true)", "inclV": " @include(if: $v)", "skipV": " @skip(if: $v)"}
+DIR = {"": "", "skipT": " @skip(if: true)", "inclV": " @include(if: $v)", "skipV": " @skip(if: $v)",
+       "sFiF": " @skip(if: false) @include(if: false)", "iTsF": " @include(if: true) @skip(if: false)"}
 
 
 def render_sel(sel, depth=0):
@@ -57,7 +58,7 @@ def features(sel):
 
 
 def _worker(behs):
-    from py_gql import build_schema
+    from py_gql import build_schema, process_graphql_query
     from py_gql.lang import parse
     from py_gql.utilities import MaxDepthValidationRule
     from py_gql.validation import validate_ast
@@ -71,7 +72,7 @@ def _worker(behs):
     for b in behs:
         sel = b["sel"]
         var = "($v: Boolean!)" if uses_var(sel) else ""
-        text = "query A%s { %s }\nquery B { o { o { a } } }\n%s" % (var, render_sel(sel), FRAGS)
+        text = "query A%s { %s }\nquery B { ...H }\n%s" % (var, render_sel(sel), FRAGS)
         doc = docs.get(text)
         if doc is None:
             if len(docs) > 2000:
@@ -83,7 +84,8 @@ def _worker(behs):
         for limit in range(6):
             exp = sorted(fl[str(limit)] if isinstance(fl, dict) else fl[limit])
             filt = b["filter"] or None
-            for via in (("direct", "validate_ast") if abs(limit - b["depth"]) <= 1 else ("direct",)):
+            near = abs(limit - b["depth"]) <= 1
+            for via in (("direct", "validate_ast") + (("entry-point",) if var else ()) if near else ("direct",)):
                 n += 1
                 wit = {"text": text, "variables": variables, "limit": limit, "operation_name": filt, "expected_flagged": exp,
                        "spec_depth": b["depth"], "via": via}
@@ -93,6 +95,12 @@ def _worker(behs):
                         rule = rules[(limit, filt)] = MaxDepthValidationRule(limit, operation_name=filt)
                     if via == "direct":
                         errs = list(rule(schema, doc, variables))
+                    elif via == "entry-point":
+                        # the top-level entry point hands the request's variables to the validators it was given
+                        res = process_graphql_query(schema, doc, variables=variables, operation_name="A", validators=[rule])
+                        errs = [e for e in (res.errors or []) if "exceeds maximum depth" in str(e)]
+                        if len(errs) != len(res.errors or []):
+                            raise RuntimeError("unexpected errors: %s" % [str(e) for e in res.errors][:2])
                     else:
                         errs = list(validate_ast(schema, doc, validators=[rule], variables=variables).errors)
                     got = sorted(e.nodes[0].name.value for e in errs)
@@ -102,7 +110,88 @@ def _worker(behs):
                 if got != exp:
                     kind = "not-flagged" if len(got) < len(exp) else ("spurious-flag" if len(got) > len(exp) else "wrong-operation")
                     out.setdefault("depth/%s/%s" % (kind, feat), ["flagged operations differ from the specification", dict(wit, got=got)])
+        # ---- the same selection as the document's only, ANONYMOUS operation: a name filter selects nothing, no filter measures it
+        extra = (hash(text) % 3 == 0)
+        if b["filter"] != "B" and extra:
+            atext = "query%s { %s }\n%s" % (var, render_sel(sel), FRAGS)
+            adoc = parse(atext)
+            for limit in (b["depth"] - 1, b["depth"]):
+                if limit < 0:
+                    continue
+                for filt in (None, "A"):
+                    n += 1
+                    exp = ["<anonymous>"] if (filt is None and b["depth"] > limit) else []
+                    wit = {"text": atext, "variables": variables, "limit": limit, "operation_name": filt, "expected_flagged": exp, "spec_depth": b["depth"]}
+                    try:
+                        errs = list(MaxDepthValidationRule(limit, operation_name=filt)(schema, adoc, variables))
+                        got = sorted((e.nodes[0].name.value if e.nodes[0].name else "<anonymous>") for e in errs)
+                    except Exception as e:
+                        out.setdefault("depth/raises/%s/anonymous+%s" % (type(e).__name__, feat), ["depth rule raises", dict(wit, error=repr(e))])
+                        continue
+                    if got != exp:
+                        out.setdefault("depth/anonymous-operation/%s/filter=%s" % ("not-flagged" if len(got) < len(exp) else "spurious-flag", filt),
+                                       ["flagged operations differ from the specification (anonymous operation)", dict(wit, got=got)])
+        # ---- the value of $v comes from the DEFAULT the operation declares (no variables submitted): same verdict; and a
+        #      variable without any value never makes the rule raise (the verdict is then not specified)
+        if var and b["filter"] != "B" and extra:
+            dtext = "query A($v: Boolean = %s) { %s }\nquery B { ...H }\n%s" % ("true" if b["v"] else "false", render_sel(sel), FRAGS)
+            ddoc = parse(dtext)
+            for limit in (b["depth"] - 1, b["depth"]):
+                if limit < 0:
+                    continue
+                n += 1
+                fl_l = sorted(fl[str(limit)] if isinstance(fl, dict) else fl[limit])
+                wit = {"text": dtext, "variables": {}, "limit": limit, "operation_name": b["filter"] or None, "expected_flagged": fl_l, "spec_depth": b["depth"]}
+                for submitted, label in (({}, "declared-default"), (None, "declared-default")):
+                    try:
+                        errs = list(MaxDepthValidationRule(limit, operation_name=b["filter"] or None)(schema, ddoc, submitted))
+                        got = sorted(e.nodes[0].name.value for e in errs)
+                    except Exception as e:
+                        out.setdefault("depth/raises/%s/variable-with-%s" % (type(e).__name__, label), ["depth rule raises", dict(wit, error=repr(e))])
+                        break
+                    if got != fl_l:
+                        out.setdefault("depth/variable-default-ignored/%s" % ("not-flagged" if len(got) < len(fl_l) else "spurious-flag"),
+                                       ["with no submitted value the variable has its declared default: flagged operations differ", dict(wit, got=got)])
+                try:
+                    list(MaxDepthValidationRule(limit)(schema, doc, {}))        # $v: Boolean! without a value
+                except Exception as e:
+                    out.setdefault("depth/raises/%s/variable-without-value" % type(e).__name__, ["depth rule raises", dict(wit, text=text, error=repr(e))])
     return out, n
+
+
+CYCLIC = [
+    ("through-a-field", "{ ...A }\nfragment A on O { o { ...A } }"),
+    ("direct", "{ a ...A }\nfragment A on O { a ...A }"),
+    ("two-fragments", "query Q { o { ...A } }\nfragment A on O { o { ...B } }\nfragment B on O { a o { ...A } }"),
+    ("behind-a-sibling", "{ o { ...G ...A } }\nfragment G on O { a }\nfragment A on O { o { ...G ...A } }"),
+]
+
+
+def cyclic_probe(out):
+    """Documents with fragment cycles are executable documents too (the depth rule runs next to the rule that reports cycles):
+    it must return, never raise.  A cycle through a field level nests without bound, so every limit is exceeded; a cycle that
+    adds no level ("direct") has the depth of its fields."""
+    from py_gql import build_schema
+    from py_gql.lang import parse
+    from py_gql.utilities import MaxDepthValidationRule
+    schema = build_schema(SCHEMA_SDL)
+    n = 0
+    for label, text in CYCLIC:
+        doc = parse(text)
+        for limit in (0, 3, 50):
+            n += 1
+            wit = {"text": text, "limit": limit}
+            try:
+                errs = list(MaxDepthValidationRule(limit)(schema, doc, {}))
+            except BaseException as e:
+                out.setdefault("depth/raises/%s/fragment-cycle-%s" % (type(e).__name__, label), ["depth rule raises on a document with a fragment cycle", dict(wit, error=repr(e)[:200])])
+                break
+            flagged = bool(errs)
+            if label != "direct" and not flagged:
+                out.setdefault("depth/not-flagged/fragment-cycle-%s" % label, ["an operation that nests without bound is not flagged", wit])
+            if label == "direct" and flagged:
+                out.setdefault("depth/spurious-flag/fragment-cycle-direct", ["a flat operation is flagged", wit])
+    return n
 
 
 def run(chk):
@@ -123,6 +212,10 @@ def run(chk):
         chk.traces += n
         for k, (what, wit) in out.items():
             chk.diverge(k, wit, what)
+    probe = {}
+    chk.traces += cyclic_probe(probe)
+    for k, (what, wit) in probe.items():
+        chk.diverge(k, wit, what)
     chk.sample({"sel": behs[len(behs) // 2]["sel"], "depth": behs[len(behs) // 2]["depth"], "filter": behs[len(behs) // 2]["filter"]})
     chk.assumptions += ["depth = number of nested field selection sets below the operation's own (the library's documented example has depth 4)"]
     return chk.finish(rule="every operation buildable in <= MaxSteps actions x v x operation-name filter x limits 0..5 x 2 call paths")
